@@ -28,9 +28,9 @@ ASSUMPTIONS = [
     "a pre-set section that is a scalar under a dotted read is not generated (known finding C04 scalar-prefix)",
 ]
 
-PS = [{"A": 9}, {"S": {"X": 9}}, {"A": 4, "S": {"X": 4, "Y": 7}}, {}]
-DS_ = [{"A": 8}, {"S": {"Y": 8}}, {"A": 3, "S": {"X": 6, "Y": 3, "Z": 5}}]
-OSPEC = [("A", [ABSENT, 1]), ("S.X", [ABSENT, 1]), ("S.Y", [ABSENT, 2])]
+PS = [{"A": 9}, {"S": {"X": 9}}, {"A": 4, "S": {"X": 4, "Y": 7}, "LST": [3, [1, 2]]}, {}]
+DS_ = [{"A": 8}, {"S": {"Y": 8}, "LST": [9, [8]]}, {"A": 3, "S": {"X": 6, "Y": 3, "Z": 5}}]
+OSPEC = [("A", [ABSENT, 1]), ("S.X", [ABSENT, 1]), ("S.Y", [ABSENT, 2]), ("LST", [ABSENT, [5, [6]]])]
 
 READ3 = ("tuple", [("opt", "A", ("val", 0)), ("opt", "S.X", ("val", 0)), ("opt", "S.Y", ("val", 0))])
 
@@ -43,6 +43,10 @@ def _xs():
     X.append(("ds-dispatch", ("ds", "x4", {"params": [("opt", "S.Y", ("val", 0))], "dispatch": ("optkey", "A"),
                                            "overloads": [(9, ("opt", "S.X", ("val", 0))), (1, ("val", "one")), (8, READ3)], "callback": ("fn", "cb")}), True))
     X.append(("ds-nocache", ("ds", "x5", {"params": [READ3], "cache": "none"}), True))
+    # consumers that modify the values they receive in place: nothing they get may alias the caller's or
+    # the pre-set dictionaries
+    X.append(("mutating-consumer", ("tuple", [("apply", ("opt", "S", ("val", {})), ("fn", "f_mutate")), ("apply", ("opt", "LST", ("val", [])), ("fn", "f_mutate"))]), False))
+    X.append(("ds-mutating-callback", ("ds", "x7", {"params": [("opt", "S", ("val", {})), ("opt", "LST", ("val", []))], "callback": ("fn", "f_mutate_all"), "cache": "none"}), True))
     return X
 
 
@@ -153,6 +157,7 @@ def check_stack(name, term, stack, res, only_o=None):
         if not any(f["sig"].startswith(f"C08|{kind}|{name}|{stack!r}") for f in fails):
             fails.append({"sig": sig, "what": f"{kind}: {name} wrapped by {stack!r} (innermost first) under {o!r}", "detail": d + " term=" + short(wterm, 400), "case": ("one", name, term, stack, o)})
 
+    shared = {}
     for o in callers():
         if only_o is not None and o != only_o:
             continue
@@ -161,7 +166,10 @@ def check_stack(name, term, stack, res, only_o=None):
             # a scalar/list S under a dotted read: known finding C04 scalar-prefix, and lists are not sections
             if any(k in repr(term) for k in ("'S.X'", "'S.Y'")):
                 continue
-        oc = copy.deepcopy(o)
+        # the caller reuses ONE dictionary object, updated in place between calls
+        shared.clear()
+        shared.update(copy.deepcopy(o))
+        oc = shared
         snap = copy.deepcopy(o)
         got = observe(w, lambda: obj.evaluate(oc))
         want = observe(wx, lambda: xobj.evaluate(copy.deepcopy(eff)))
